@@ -686,6 +686,28 @@ class FlatInit:
 EMPTY_VALUES = ("()", "[]", "{}", "tuple()", "list()", "dict()", "tuple([])", "tuple(())")
 
 
+def is_empty_value(txt):
+    """does the (normalised) expression text denote an empty container whatever the state: an empty display, or a container
+    constructor applied to nothing or to such an empty value (`dict(())`, `list(tuple())`, `{**{}}`)?"""
+    if txt in EMPTY_VALUES:
+        return True
+    try:
+        e = ast.parse(txt, mode="eval").body
+    except (SyntaxError, ValueError, TypeError):
+        return False
+
+    def empty(x):
+        if isinstance(x, (ast.Tuple, ast.List, ast.Set)):
+            return all(isinstance(v, ast.Starred) and empty(v.value) for v in x.elts)
+        if isinstance(x, ast.Dict):
+            return all(k is None and empty(v) for k, v in zip(x.keys, x.values))
+        if isinstance(x, ast.Call) and isinstance(x.func, ast.Name) and x.func.id in ("dict", "list", "tuple", "set", "frozenset", "sorted", "reversed") \
+                and not any(k.arg is not None for k in x.keywords):
+            return all(empty(a) for a in x.args) and all(empty(k.value) for k in x.keywords) and len(x.args) <= 1
+        return False
+    return empty(e)
+
+
 def feasible_with(conj, aliases, value):
     """Can a path with the branch literals `conj` be taken when the mapping spelled by one of `aliases` is
     `value`?  Literals about anything else do not decide (the path stays possible)."""
@@ -920,7 +942,7 @@ def own_argument_field(fl, field, param):
             return False, ("self.%s is read from state that outlives this construction (%s): another construction, or another thread "
                            "between the writes, gets the context args of a different call, which is then keyed, stored and served under them"
                            % (field, ", ".join(shared))), d.stmt
-        if fa.xnorm(v, d.node) in EMPTY_VALUES:
+        if is_empty_value(fa.xnorm(v, d.node)):
             empties.append(d)
             continue
         dp = fa.deps(v, d.node)
@@ -936,7 +958,7 @@ def own_argument_field(fl, field, param):
         oc = None
     if oc is not None:
         for (conj, txt) in oc:
-            if (txt in EMPTY_VALUES or txt == "<unassigned>") and feasible_with(conj, {param}, {"a": 1}):
+            if (is_empty_value(txt) or txt == "<unassigned>") and feasible_with(conj, {param}, {"a": 1}):
                 return False, "self.%s is left empty on a path on which %s were given" % (field, param), (empties[0].stmt if empties else None)
     else:
         for d in empties:
